@@ -115,6 +115,7 @@ class World:
         self.custom_stop = None
         self.sels = []
         self.results = []  # per run: (cls, obj)
+        self.ours = []  # every non-Exception BaseException object the replay handed to f (all runs of this World)
         self.old_d = None  # the Deferred the previous run's f returned, if it never fired
         self.vold = ["vold"]  # what the second run's f fires it with
 
@@ -170,6 +171,7 @@ class World:
         stop_before = reactor.stop
         junk_at_entry = bool(spinner.get_junk())
         vals = self.concrete()
+        self.ours += [vals[b] for b in ("b1", "b2", "b3")]
         made = {}  # label -> DelayedCall
         st = {"inner": "-", "ran": False, "sel": None}
 
@@ -244,8 +246,11 @@ class World:
             obs_obj = ex
             cls, val = "Stuck", "-"
         except BaseException as ex:  # f's SystemExit / KeyboardInterrupt / BaseException come out of run() too
-            if not isinstance(ex, Exception) and not any(ex is vals[b] for b in ("b1", "b2", "b3")):
-                raise  # not ours (a real Ctrl-C)
+            if not isinstance(ex, Exception) and not any(ex is o for o in self.ours):
+                # not an object this replay created (a real Ctrl-C).  An object of an EARLIER run of this World
+                # (e.g. a SystemExit the Spinner kept and raises again) is classified below like any other result -
+                # letting it escape would end the whole check with SystemExit's code and no verdict.
+                raise
             obs_obj = ex
             named = {sp.TimeoutError: "TimeoutError", sp.NoResultError: "NoResultError",
                      sp.StaleJunkError: "StaleJunkError", sp.ReentryError: "ReentryError"}  # fmt: skip
@@ -353,7 +358,10 @@ def replay(hist, idx, real=False, unit=1):
     out, obs_all, drifts = [], [], []
     try:
         for h in hist:
-            bad, obs, drift = w.run_once(h)
+            try:
+                bad, obs, drift = w.run_once(h)
+            except SystemExit as ex:  # must never end the check silently with its exit code
+                raise tlc.MachineryError("C15: a SystemExit(%r) escaped the replay of %s" % (ex.code, jdump(abstract(hist))))
             obs_all.append(obs)
             if drift:
                 drifts.append(drift)
